@@ -278,8 +278,6 @@ theorem rankT_mono (fb : XR → XR → XR → XR) (h : NHist XR)
         · rw [rec1 v1 c1 d1, rec1 v2 c2 (by grind)]
           grind
 
-theorem XR.isNaN_fin (x : Rat) : XR.isNaN (.fin x) = false := rfl
-
 theorem final_rank (st : FrSt XR) (N : Rat) (o : Option Rat) (e : loOpt st = o.map XR.fin) (hle : ∀ x, o = some x → x ≤ N) :
     (if !st.lowerSet || XR.lt (.fin N) st.lowerRank then XR.fin N else st.lowerRank) = .fin (o.getD N) := by
   unfold loOpt at e
@@ -326,7 +324,10 @@ theorem hf_val (fb : XR → XR → XR → XR) {h : NHist XR} {L : List RB} {N : 
         fb (.fin l) (.fin u) (.fin v2) = .fin f2 ∧ 0 ≤ f1 ∧ f1 ≤ f2 ∧ f2 ≤ 1)
     (lo up : Rat) (hlu : lo ≤ up) :
     histogramFraction fb (.fin lo) (.fin up) h = .fin ((rankT fb h up 0 L - rankT fb h lo 0 L) / N) := by
-  have hs' : XR.isNaN h.sum = false := by cases hh : h.sum <;> simp_all [XR.isNaN] <;> exact absurd hh R.sum
+  have hcount : (if XR.isNaN h.sum = true then sumCounts (XR.fin 0) h.fwd else XR.fin N) = XR.fin N := by
+    split
+    · rw [R.fwd, sumCounts_map, R.tot]; congr 1; grind
+    · rfl
   have hN0 : N ≠ 0 := by have := R.pos; grind
   have okl : ∀ b ∈ L, b.l ≤ b.u := fun b hb => (R.ok b hb).1
   have FB : ∀ v, ∀ b ∈ L, b.l < v → v < b.u → ∃ f, fb (.fin b.l) (.fin b.u) (.fin v) = .fin f := by
@@ -335,7 +336,7 @@ theorem hf_val (fb : XR → XR → XR → XR) {h : NHist XR} {L : List RB} {N : 
     exact ⟨f, hf⟩
   unfold histogramFraction
   simp only [fops_beq, fops_zero, R.count, XR.beq_fin, hN0, decide_false, fops_isNaN, XR.isNaN_fin, Bool.or_false,
-    Bool.false_eq_true, if_false, fops_le, XR.le_fin, hs']
+    Bool.false_eq_true, if_false, fops_le, XR.le_fin, hcount]
   by_cases heq : up ≤ lo
   · have : lo = up := by grind
     subst this
